@@ -234,6 +234,7 @@ package fstxn
 //@   requires opInv(op) && curop == base(op) && listsValid(op.Atxn) && dirtyInv()
 //@   requires [A1-once] lastst == 0 || (lastst == 3 && len(op.Atxn.allocInums) == 0 && len(op.Atxn.allocBnums) == 0) @C09 @C05
 //@   requires [A2-rollback] forall i uint64 :: dirtyinum[i] ==> wroteinum[i] @C09 @C10
+//@   requires [A1-not-committed] cphase != 2 @C09 @C05
 //@   preserves [allocInv] allocInv() @C15 @C04
 //@   allocates buf.Buf
 //@   modifies held, lastst, abits, dirtyinum, cache.Cslot.Obj, map[uint64]*inode.Inode
